@@ -74,7 +74,7 @@ PROP(C11) __CPROVER_ensures(SAFETY(g_var_sym) == __CPROVER_old(SAFETY(g_var_sym)
 /* (Symbol::safety() is `_safety || _locked`; FORALLStatement::parse refuses a protected iterator symbol before it gets here: then the two flags themselves are restored) */
 PROP(C11) __CPROVER_ensures(!__CPROVER_old(SAFETY(g_var_sym)) ==> (!g_var_sym._safety && !g_var_sym._locked))
 /* ... and so does the table's symbol */
-PROP(C09, C11) __CPROVER_ensures(g_exp_sym._locked == __CPROVER_old(g_exp_sym._locked) && g_exp_sym._safety == __CPROVER_old(g_exp_sym._safety))
+PROP(C09, C11, C17) __CPROVER_ensures(g_exp_sym._locked == __CPROVER_old(g_exp_sym._locked) && g_exp_sym._safety == __CPROVER_old(g_exp_sym._safety))
 /* the block opened for the body is closed exactly once */
 PROP(C11) __CPROVER_ensures(g_begin_n == 1 && g_end_n == 1 && g_begin_arg == (const void *)rof)
 /* a rejected body leaves no compiled statement behind */
